@@ -82,7 +82,7 @@ func (m *MonC14) OnReq(w *World, r *Req) {
 	switch {
 	case r.After != nil && r.Changed:
 		c := fmt.Sprint(r.After["objects"])
-		if old, ok := m.content[k]; ok && old != c {
+		if old, ok := m.content[k]; ok && old != c && r.Pass != nil {
 			m.touch()
 			w.Report(Violation{Property: "C14", Rule: "name-reused", Sig: shortSite(r.Site), Seq: r.Seq,
 				Msg: fmt.Sprintf("slice %s was bound to different content by %s", k, r.Actor)})
